@@ -5,6 +5,9 @@ package checks
 import (
 	"encoding/json"
 	"fmt"
+	"go/ast"
+	"go/parser"
+	"go/token"
 	"go/types"
 	"os"
 	"path/filepath"
@@ -240,6 +243,85 @@ func c12Run(c c12Case) (v *verdict, labels []string, nontrivial bool) {
 	return nil, labels, compared >= 10
 }
 
+// garbledFuncName finds the garbled spelling of a top-level function by
+// pairing the function declarations of an original and a garbled file in order.
+func garbledFuncName(origFile, garbledFile, name string) string {
+	fset := token.NewFileSet()
+	of, err1 := parser.ParseFile(fset, origFile, nil, parser.SkipObjectResolution)
+	gf, err2 := parser.ParseFile(fset, garbledFile, nil, parser.SkipObjectResolution)
+	if err1 != nil || err2 != nil {
+		return ""
+	}
+	var od, gd []*ast.FuncDecl
+	for _, d := range of.Decls {
+		if f, ok := d.(*ast.FuncDecl); ok {
+			od = append(od, f)
+		}
+	}
+	for _, d := range gf.Decls {
+		if f, ok := d.(*ast.FuncDecl); ok {
+			gd = append(gd, f)
+		}
+	}
+	for i, f := range od {
+		if f.Name.Name == name && f.Recv == nil && i < len(gd) {
+			return gd[i].Name.Name
+		}
+	}
+	return ""
+}
+
+// c12TestVariant: with -seed, the same identifier declared by a package, by
+// its internal test files and by its external test package must not get the
+// same obfuscated name in the package and in the external test package
+// ("differs ... in another package").
+func c12TestVariant(c c12Case) (v *verdict, labels []string, nontrivial bool) {
+	dir := caseDir()
+	defer h.RemoveAll(dir)
+	labels = []string{"change:test-variant", "seeded:true"}
+	prog := progen.Render(c.Spec)
+	src := filepath.Join(dir, "src")
+	h.WriteFiles(src, prog.Files)
+	cfg := h.Config{Seed: fixedSeeds[0]}
+	box := h.NewCaseBox(dir, cfg, h.LevelTest)
+	dd := filepath.Join(dir, "dd")
+	r := box.GarbleX(cfg, src, []string{"-debugdir=" + dd}, nil, "test", "-count=1", "./...")
+	if strings.Contains(r.Stdout+r.Stderr, "build failed") {
+		stats.Note("garble test failed in a C12 test-variant case (judged by C01): %s", h.Clip(r.Stderr, 300))
+		return nil, append(labels, "garble-test-failed"), false
+	}
+	compared := 0
+	for fi, f := range c.Spec.Feats {
+		if f.Kind != "tests" {
+			continue
+		}
+		mk := fmt.Sprintf("Zq%dx", fi)
+		pdir := c.Spec.Pkgs[f.Prov].Dir
+		find := func(base string) string {
+			found := ""
+			filepath.Walk(filepath.Join(dd, "garbled"), func(p string, info os.FileInfo, err error) error {
+				if err == nil && !info.IsDir() && filepath.Base(p) == base {
+					found = p
+				}
+				return nil
+			})
+			return found
+		}
+		provFile := fmt.Sprintf("prov_%s.go", strings.ToLower(mk))
+		ext := fmt.Sprintf("zqx%s_test.go", mk)
+		inPkg := garbledFuncName(filepath.Join(src, pdir, provFile), find(provFile), "sameName"+mk)
+		inExt := garbledFuncName(filepath.Join(src, pdir, ext), find(ext), "sameName"+mk)
+		if inPkg == "" || inExt == "" {
+			continue
+		}
+		compared++
+		if inPkg == inExt {
+			return &verdict{Key: "C12/test-variant/seeded/func", Msg: fmt.Sprintf("with -seed, func sameName%s is declared both in package %s and in its external test package; both are obfuscated to %q although they live in different packages", mk, c.Spec.ImportPath(f.Prov), inPkg)}, labels, true
+		}
+	}
+	return nil, labels, compared > 0
+}
+
 func TestC12(t *testing.T) {
 	rc.Check(t, func(t *rapid.T) {
 		var c c12Case
@@ -255,7 +337,27 @@ func TestC12(t *testing.T) {
 		if c.Change == "edit-other" && c.EditAt == 0 {
 			c.EditAt = len(c.Spec.Pkgs) - 1
 		}
-		v, labels, nt := c12Run(c)
+		var v *verdict
+		var labels []string
+		var nt bool
+		if rapid.IntRange(0, 5).Draw(t, "testvariant") == 0 {
+			// one case in six looks at garble test with -seed instead
+			c.Change, c.Seeded = "test-variant", true
+			c.Spec = progen.Draw(t, progen.Options{Kinds: []string{"tests", "tests", "struct", "closure"}, MinPkgs: 2, MaxPkgs: 3, MinFeats: 2, MaxFeats: 4, NoExit: true})
+			hasTests := false
+			for _, f := range c.Spec.Feats {
+				hasTests = hasTests || f.Kind == "tests"
+			}
+			if !hasTests {
+				c.Spec.Feats[0].Kind = "tests"
+				if c.Spec.Feats[0].Prov == 0 {
+					c.Spec.Feats[0].Prov, c.Spec.Feats[0].User = 1, 0
+				}
+			}
+			v, labels, nt = c12TestVariant(c)
+		} else {
+			v, labels, nt = c12Run(c)
+		}
 		stats.Case(stats.Desc(c.Change, fmt.Sprint(c.Seeded), strings.Join(labels, ",")), nt, labels,
 			map[string]any{"change": c.Change, "seeded": c.Seeded, "packages": len(c.Spec.Pkgs), "edited_package": c.EditAt})
 		if v != nil {
@@ -269,6 +371,15 @@ func TestC12Replay(t *testing.T) {
 	rc.Fixed(t, func() {
 		var c c12Case
 		loadReplay(&c)
+		if c.Change == "test-variant" {
+			v, labels, nt := c12TestVariant(c)
+			stats.Case("replay", nt, labels, nil)
+			if v != nil {
+				stats.Violate(v.Key, v.Msg, nil)
+				t.Errorf("%s: %s", v.Key, v.Msg)
+			}
+			return
+		}
 		v, labels, nt := c12Run(c)
 		stats.Case("replay", nt, labels, nil)
 		if v != nil {
